@@ -180,6 +180,22 @@ def r15_2(run):
                         ok = True
         run.ob("R15.2", loc(m, m.node), m.short, "decorator form runs the wrapped function inside `with self:`", ok,
                "wrapper body: with self: func(*args, **kwargs)" if ok else "decorated functions are not bracketed by a with-statement")
+        fname = m.node.args.args[1].arg
+        for w in wr:
+            outside = []
+            for c in ast.walk(w.node):
+                if isinstance(c, ast.Call) and isinstance(c.func, ast.Name) and c.func.id == fname:
+                    p = getattr(c, "_parent", None)
+                    inside = False
+                    while p is not None and p is not w.node:
+                        if isinstance(p, ast.With) and any(norm(i.context_expr) == "self" for i in p.items):
+                            inside = True
+                        p = getattr(p, "_parent", None)
+                    if not inside:
+                        outside.append(c)
+            run.ob("R15.2", loc(w, outside[0] if outside else w.node), m.short, "every call of the wrapped function lies inside the `with self:` block", not outside,
+                   "no un-bracketed call path" if not outside else
+                   "the decorator can call the function without entering the scope (e.g. a re-entrancy shortcut): the setting in force is the caller's, not the decorator's")
     run.count("with-sites of the three scopes", n_with)
     if n_with < 4:
         raise AnalysisError(f"expected >= 4 `with <scope>` sites, found {n_with}")
